@@ -39,8 +39,9 @@ extern int mpt_parse_format_enc(const MPT_STRUCT(parser_format) *fmt, MPT_STRUCT
 	/* get next visible character */
 	else if ((curr = mpt_parse_nextvis(&parse->src, fmt->com, sizeof(fmt->com))) < 0) {
 		parse->curr = MPT_PARSEFLAG(Name);
+		/* regular end of input on top level */
 		if (!path->len && curr == -2) {
-			return curr;
+			return 0;
 		}
 		return MPT_ERROR(MissingData);
 	}
